@@ -283,6 +283,23 @@ def followup():
     return [body0(), body1(), run(lambda: apischema.serialize(Shape, Square(7))), run(lambda: apischema.deserialize(List[LK], [8, "x"]))]
 '''
 
+# untyped serialize(obj) / Any positions: one shared method serves every class, from both threads, on first use of each class
+H_SRC["H15_untyped_serialize"] = '''
+@dataclass
+class UA(metaclass=DetMeta):
+    a: int = 1
+    inner: Any = None
+@dataclass
+class UB(metaclass=DetMeta):
+    b: str = "x"
+    items: List[Any] = field(default_factory=list)
+def body0(): return repr(apischema.serialize(UA(1, UB("y", [UA(2), 3]))))
+def body1(): return repr(apischema.serialize(UB("z", [UA(4, UB()), UB("w")])))
+BODIES = [body0, body1]
+def followup():
+    return [body0(), body1(), repr(apischema.serialize(Any, [UA(), UB()])), repr(apischema.serialize(Dict[str, Any], {"k": UB("q", [UA(5)])}))]
+'''
+
 QUICK = ["H1_deser_selfrec", "H2_ser_selfrec", "H3_shared_member", "H4_mutual", "H7_plain_control", "H10_schema_same_direction", "H13_inherited_validator", "H14_lazy_conversions"]
 ALL = list(H_SRC)
 
@@ -514,7 +531,7 @@ def run_config(plan, instr, wide, max_schedules=None, nworkers=None) -> infra.St
 def main(tier: str, t0: float) -> int:
     if tier == "quick":
         st = run_config([(h, 1) for h in QUICK], False, True)
-        everywhere_q = ["H1_deser_selfrec", "H2_ser_selfrec", "H9_validators_conv", "H12_union_by_type_subclass_data", "H13_inherited_validator"]
+        everywhere_q = ["H1_deser_selfrec", "H2_ser_selfrec", "H9_validators_conv", "H12_union_by_type_subclass_data", "H13_inherited_validator", "H15_untyped_serialize"]
         st.merge(run_config([(h, 1) for h in everywhere_q], False, "all"))
         plan_desc = {"wide line points, 1 preemption": QUICK, "line points in every apischema module, 1 preemption": everywhere_q}
     else:
@@ -523,7 +540,7 @@ def main(tier: str, t0: float) -> int:
         st.merge(run_config([(h, 2) for h in two], False, "tiny"))
         core4 = ["H1_deser_selfrec", "H2_ser_selfrec", "H3_shared_member", "H4_mutual"]
         st.merge(run_config([(h, 1) for h in core4], True, False))
-        everywhere = ["H1_deser_selfrec", "H2_ser_selfrec", "H9_validators_conv", "H10_schema_same_direction", "H11_ser_schema_same_direction", "H12_union_by_type_subclass_data", "H13_inherited_validator"]
+        everywhere = ["H1_deser_selfrec", "H2_ser_selfrec", "H9_validators_conv", "H10_schema_same_direction", "H11_ser_schema_same_direction", "H12_union_by_type_subclass_data", "H13_inherited_validator", "H15_untyped_serialize"]
         st.merge(run_config([(h, 1) for h in everywhere], False, "all"))
         plan_desc = {"wide line points, 1 preemption": ALL, "recursion/cache line points, 2 preemptions": two, "bytecode points on recursion core, 1 preemption": core4, "line points in every apischema module, 1 preemption": everywhere}
     st.counters["evaluations"] = st.counters.get("schedules", 0)
